@@ -33,7 +33,10 @@ func newSegmentTimelineGenerator(dstDir string, windowSize uint32) *segmentTimel
 	}
 }
 
-func (s *segmentTimelineGenerator) addSegmentData(log *slog.Logger, item recSegData) (newSeqNr uint32, err error) {
+// addSegmentData adds the data of a complete segment. nrTracks is the current number of tracks of the channel.
+// A sequence number is complete when all these tracks have delivered a segment with that number.
+func (s *segmentTimelineGenerator) addSegmentData(log *slog.Logger, item recSegData, nrTracks uint32) (newSeqNr uint32, err error) {
+	s._nrTracks = nrTracks
 	if s._shifted && !item.isShifted {
 		return 0, nil
 	}
@@ -84,7 +87,6 @@ func (s *segmentTimelineGenerator) start(newWindowSize uint32, isShifted bool) {
 			}
 		}
 	}
-	s._nrTracks = uint32(len(s.segDataBuffers))
 }
 
 // generateSegmentTimelineNrMPD generates the SegmentTimelineNr MPD for the channel and writes it to disk.
